@@ -1,5 +1,10 @@
 import Hgxv.Proofs.C07Ops
 import Hgxv.Proofs.C07Json
+import Hgxv.Proofs.C07Link
+import Hgxv.Proofs.C01Ops
+import Hgxv.Proofs.C02All
+import Hgxv.Proofs.C03Inv
+import Hgxv.Proofs.C04Inv
 /-! # C07 — `hash_hypergraph` is a canonical fingerprint: equal content iff equal hash
 
 Model: `Hgxv/Model/C07.lean`.  `Tables κ` are the private tables of one of the four container classes
@@ -211,6 +216,52 @@ theorem C07_pure {Digest : Type} (dumps : JTree → String) (H : String → Dige
   ⟨rfl, rfl⟩
 
 /-! ## non-vacuity: concrete histories of the four kinds -/
+/-! ## The same two directions for the FULL container models (C01–C04), over histories
+
+`Proofs/C07Link.lean` maps the concrete stores of the four complete container models to the hashing tables
+(`ofC0x`), proves that their representation invariants imply `WF`, and that the observed content is the abstract spec
+state.  Combined with the invariant-for-every-history theorems of C01–C04 this gives: any two histories of public
+calls (all mutators of the class, batched calls, copy, clear, remove_node with both keep_edges) whose ABSTRACT states
+are the same content hash equally, whatever `dumps` and `H` are; and histories ending in different abstract contents
+hash differently under the two explicit hypotheses of `C07_differ`. -/
+
+theorem C07_histories_equal_H {Digest : Type} (dumps : JTree → String) (H : String → Digest)
+    (k k' : Nat) (cs cs' : List C01.Cmd) (hwf : ∀ c ∈ cs, c.WF) (hwf' : ∀ c ∈ cs', c.WF)
+    (s s' : C01.Store) (hs : s ∈ C01.run (C01.init k) cs) (hs' : s' ∈ C01.run (C01.init k') cs')
+    (e : (ofSpec01 (C01.abs s)).Equiv (ofSpec01 (C01.abs s'))) :
+    hashOf dumps H (ofC01 s) = hashOf dumps H (ofC01 s') :=
+  C07_equal_C01 dumps H s s' (C01.run_inv cs (C01.init k) hwf (C01.init_inv k) s hs)
+    (C01.run_inv cs' (C01.init k') hwf' (C01.init_inv k') s' hs') e
+
+theorem C07_histories_differ_H {Digest : Type} (dumps : JTree → String) (H : String → Digest)
+    (k k' : Nat) (cs cs' : List C01.Cmd) (hwf : ∀ c ∈ cs, c.WF) (hwf' : ∀ c ∈ cs', c.WF)
+    (s s' : C01.Store) (hs : s ∈ C01.run (C01.init k) cs) (hs' : s' ∈ C01.run (C01.init k') cs')
+    (e : ¬ (ofSpec01 (C01.abs s)).Equiv (ofSpec01 (C01.abs s')))
+    (hd : ∀ a b : JTree, dumps (ser a) = dumps (ser b) → ser a = ser b) (hH : ∀ x y : String, H x = H y → x = y) :
+    hashOf dumps H (ofC01 s) ≠ hashOf dumps H (ofC01 s') :=
+  C07_differ_C01 dumps H s s' (C01.run_inv cs (C01.init k) hwf (C01.init_inv k) s hs)
+    (C01.run_inv cs' (C01.init k') hwf' (C01.init_inv k') s' hs') e hd hH
+
+theorem C07_histories_equal_T {Digest : Type} (dumps : JTree → String) (H : String → Digest)
+    (ops ops' : List C03.Op) (hwf : ∀ op ∈ ops, op.WF) (hwf' : ∀ op ∈ ops', op.WF)
+    (p p' : Nat × C03.Store) (hp : p ∈ C03.run [] ops) (hp' : p' ∈ C03.run [] ops')
+    (e : (ofSpec03 (C03.abs p.2)).Equiv (ofSpec03 (C03.abs p'.2))) :
+    hashOf dumps H (ofC03 p.2) = hashOf dumps H (ofC03 p'.2) :=
+  C07_equal_C03 dumps H p.2 p'.2 (C03.run_inv ops hwf [] (by intro q hq; cases hq) p hp)
+    (C03.run_inv ops' hwf' [] (by intro q hq; cases hq) p' hp') e
+
+theorem C07_histories_equal_M {Digest : Type} (dumps : JTree → String) (H : String → Digest)
+    (w w' : Bool) (hm hm' : C04.HMeta) (ops ops' : List C04.Op) (hw : ∀ op ∈ ops, op.WF) (hw' : ∀ op ∈ ops', op.WF)
+    (e : (ofSpec04 (C04.abs (C04.run (C04.init w hm) ops))).Equiv (ofSpec04 (C04.abs (C04.run (C04.init w' hm') ops')))) :
+    hashOf dumps H (ofC04 (C04.run (C04.init w hm) ops)) = hashOf dumps H (ofC04 (C04.run (C04.init w' hm') ops')) :=
+  C07_equal_C04 dumps H _ _ (C04.run_inv _ ops (C04.inv_init w hm) hw) (C04.run_inv _ ops' (C04.inv_init w' hm') hw') e
+
+theorem C07_histories_equal_D {Digest : Type} (dumps : JTree → String) (H : String → Digest)
+    (w w' : Bool) (ops ops' : List C02.Op) (hops : ∀ o ∈ ops, o.WF) (hops' : ∀ o ∈ ops', o.WF)
+    (e : (ofSpec02 (C02.abs (C02.run { weighted := w } ops))).Equiv (ofSpec02 (C02.abs (C02.run { weighted := w' } ops')))) :
+    hashOf dumps H (ofC02 (C02.run { weighted := w } ops)) = hashOf dumps H (ofC02 (C02.run { weighted := w' } ops')) :=
+  C07_equal_C02 dumps H _ _ (C02.run_inv _ ops hops (C02.inv_init w [])) (C02.run_inv _ ops' hops' (C02.inv_init w' [])) e
+
 namespace C07Ex
 
 /-- Hypergraph: different insertion order, different node-listing order, a detour through an extra node and an
